@@ -11,3 +11,6 @@ import Reamber.Props.C13
 #print axioms Reamber.Rate.Stage.step
 #print axioms Reamber.Rate.updateWith_slices
 #print axioms Reamber.Rate.reindex_mapAll_reindex
+#print axioms Reamber.Rate.frame_spec_sound
+#print axioms Reamber.Rate.rate_write_read_partial
+#print axioms Reamber.Rate.d04_offset_must_scale
